@@ -377,6 +377,7 @@ def run(ctx):
                       "sibling_agreement", rd.loc(i), "entries selected by %s go to %s" % (flag, want),
                       "entries selected by %s are pushed to %s (the d_type-less fallback disagrees with the fast path)" % (flag, tgt))
 
+    readdir_does_not_follow_links(ctx, "C10")
     # ------------------------------------------------ (iv) erase in iteration (tick-reachable)
     n_loops = 0
     for u in sorted(tick_fns):
